@@ -26,6 +26,32 @@ CHECKS = {
             'closure/completion/reporting on every bottom SCC of the finished graph.', '6 C09'),
 }
 
+CHECKS.update({
+    'C02': ('exploration', 'bounded-exhaustive enumeration against an independent RFC 9171 codec (three-way round trip)',
+            'Finite product of boundary field values, flag subsets, EID forms, CRC types, block lists and status reports is '
+            'enumerated completely; each point is encoded/decoded by the implementation and by an independent codec and all '
+            'three round trips must agree octet for octet.', '6 C02'),
+    'C07': ('model_checking', 'complete state graph over delivered-octet counts per stream, plus codec differential',
+            'For every stream of the menu every edge "deliver the next j octets" of the delivered-octet graph is executed on '
+            'the real endpoint and must land on the reference state, which covers all 2^(n-1) chunkings; observations may '
+            'change only at message ends found by an independent framer.', '6 C07'),
+    'C08': ('fault_enumeration', 'exhaustive bit-flip / burst fault enumeration judged by an independent decoder and CRC',
+            'Every single-bit flip and burst pattern inside every CRC-protected block of a menu of bundles is delivered to '
+            'a fresh real agent followed by the pristine copy; output CRCs are recomputed independently.', '6 C08'),
+    'C11': ('exploration', 'bounded-exhaustive enumeration of received bundles and two-bundle histories, decoded independently',
+            'Every combination of hop-by-hop extension blocks, CRC types, numbering schemes, clock/no-clock and MTU is '
+            'forwarded by a real agent; the transmitted octets are decoded by the independent decoder.', '6 C11'),
+    'C14': ('model_checking', 'timed explicit-state model checking under a virtual clock',
+            'Timed state graphs of two real endpoints for every keepalive/idle combination; KEEPALIVE and idle-timeout '
+            'timing, negotiated values and segment sizes are judged on every transition and quiescent state.', '6 C14'),
+    'C17': ('model_checking', 'explicit-state search of a real endpoint against an adversarial peer alphabet',
+            'Every sequence of out-of-place / unknown-id / malformed-header messages up to the depth bound, in every '
+            'reachable state, judged by a reference receiver and an epilogue transfer in each direction.', '6 C17'),
+    'C18': ('model_checking', 'explicit-state model checking with D-Bus marshalling rules probed from the real library',
+            'User send/pop/terminate calls at every between-iteration state; queues, idle flag and state are read through '
+            'the recording bus in every state and every emission is marshalled against its declared signature.', '6 C18'),
+})
+
 NOT_YET = {
 }
 
